@@ -165,21 +165,30 @@ def runnable(rng):
 
     state = {"in_function": False}
 
+    def iexpr(d=0):
+        """an int-valued expression: never raises"""
+        c = rng.random()
+        if d > 2 or c < 0.4:
+            return rng.choice(names + ["1", "2", "7", "True", "10**20", "-3"])
+        if c < 0.75:
+            return "(%s %s %s)" % (iexpr(d + 1), rng.choice(["+", "-", "*", "==", "<", "and", "or", "% 5 +"]), iexpr(d + 1))
+        if c < 0.85:
+            return "(%s if %s else %s)" % (iexpr(d + 1), iexpr(d + 1), iexpr(d + 1))
+        if c < 0.95 and not state["in_function"]:
+            return "f%d(%s)" % (rng.randint(0, 1), iexpr(d + 1))
+        return "len([%s for i in range(%d) if i %% 2])" % (iexpr(d + 1), rng.randint(0, 4))
+
     def expr(d=0):
         c = rng.random()
-        if state["in_function"] and 0.8 <= c < 0.9:
-            c = 0.1          # no calls between the generated functions: every program terminates
-        if d > 2 or c < 0.35:
-            return rng.choice(names + ["1", "2", "0.5", "'s'", "None", "True", "(1, 2)", "-0.0", "10**20", "b'x'"])
         if c < 0.6:
-            return "(%s %s %s)" % (expr(d + 1), rng.choice(["+", "-", "*", "==", "<", "and", "or", "is"]), expr(d + 1))
+            return iexpr(d)
         if c < 0.7:
-            return "[%s for i in range(%d) if i %% 2]" % (expr(d + 1), rng.randint(0, 4))
+            return rng.choice(["0.5", "'s'", "None", "(1, 2)", "-0.0", "b'x'", "..."])
         if c < 0.8:
-            return "(%s if %s else %s)" % (expr(d + 1), expr(d + 1), expr(d + 1))
+            return "[%s for i in range(%d) if i %% 2]" % (iexpr(d + 1), rng.randint(0, 4))
         if c < 0.9:
-            return "f%d(%s)" % (rng.randint(0, 1), expr(d + 1))
-        return "(lambda q=%s: (q, %s))()" % (expr(d + 1), expr(d + 1))
+            return "(%s, 's', %s)" % (iexpr(d + 1), iexpr(d + 1))
+        return "(lambda q=%s: (q, %s))()" % (iexpr(d + 1), iexpr(d + 1))
 
     def stmts(ind, d=0):
         pad = "    " * ind
@@ -189,9 +198,9 @@ def runnable(rng):
             if d > 1 or c < 0.4:
                 out.append(pad + "show(%s)" % expr())
             elif c < 0.55:
-                out.append(pad + "%s = %s" % (rng.choice(names), expr()))
+                out.append(pad + "%s = %s" % (rng.choice(names), iexpr()))
             elif c < 0.7:
-                out.append(pad + "if %s:\n%s\n%selse:\n%s" % (expr(), stmts(ind + 1, d + 1), pad, stmts(ind + 1, d + 1)))
+                out.append(pad + "if %s:\n%s\n%selse:\n%s" % (iexpr(), stmts(ind + 1, d + 1), pad, stmts(ind + 1, d + 1)))
             elif c < 0.8:
                 out.append(pad + "for k in range(%d):\n%s" % (rng.randint(0, 3), stmts(ind + 1, d + 1)))
             elif c < 0.9:
